@@ -52,9 +52,16 @@ def main():
                     confirmed = r.get('demo_fails_with_change') and r.get('demo_passes_without') and 'passed' in r.get('tests_with_change', '') and 'failed' not in r.get('tests_with_change', '')
                     print('%s confirmed=%s detected=%s failing_input=%s | %s' % (os.path.basename(s), confirmed, r.get('detected'), r.get('with_failing_input'), r.get('summary', r.get('status'))), flush=True)
                     c = meta.setdefault('confirmed_by_integrator', {})
-                    c.update({'check_detected': r.get('detected'), 'check_gave_failing_input': r.get('with_failing_input'),
+                    meta.update({'tests_pass_with_change': 'passed' in r.get('tests_with_change', '') and 'failed' not in r.get('tests_with_change', ''),
+                                 'demo_fails_with_change': r.get('demo_fails_with_change'), 'demo_passes_without': r.get('demo_passes_without')})
+                    c.update({'confirmed': bool(confirmed),
+                              'ran': ['git apply patch.diff (scratch worktree of /repo)', 'pytest tests (PYTHONPATH=<worktree>/py34): ' + r.get('tests_with_change', ''),
+                                      'demo.py with change: exit %s' % ('!= 0' if r.get('demo_fails_with_change') else '0'),
+                                      './check %s --tier quick (VERIF_REPO=<worktree>)' % prop, 'git checkout -- .',
+                                      'demo.py without change: exit %s' % ('0' if r.get('demo_passes_without') else '!= 0')],'check_detected': r.get('detected'), 'check_gave_failing_input': r.get('with_failing_input'),
                               'violation_lines': [l.replace(slot + '/verif', '/verif') for l in r.get('violation_lines') or []],
                               'check_summary': r.get('summary'), 'check_wall_s': r.get('wall_s')})
+                    c['ran'] = c['ran']
                     json.dump(meta, open(os.path.join(s, 'meta.json'), 'w'), indent=1)
         finally:
             sh('git -C /repo worktree remove --force %s/repo; rm -rf %s' % (slot, slot))
